@@ -600,7 +600,7 @@ func (ev *evaluator) call(e *Expr) (*Term, error) {
 			return nil, err
 		}
 		return App("k_pstr", SInt, o, IntC(int64(ti.Width))), nil
-	case "kfix":
+	case "kfix", "k_fix":
 		a, err := ev.args(e)
 		if err != nil {
 			return nil, err
@@ -652,6 +652,66 @@ func (ev *evaluator) call(e *Expr) (*Term, error) {
 			return nil, err
 		}
 		return Ite(a[0], a[1], a[2]), nil
+	case "encw": // encw(order, width, bits): raw form used by pinned layouts
+		o, err := ev.order(e.Args[0])
+		if err != nil {
+			return nil, err
+		}
+		w, err := ev.intTerm(e.Args[1])
+		if err != nil {
+			return nil, err
+		}
+		v, err := ev.intTerm(e.Args[2])
+		if err != nil {
+			return nil, err
+		}
+		return App("enc", SSeq, o, w, v), nil
+	case "pow2":
+		if e.Args[0].Kind == "num" {
+			return Pow2(int(e.Args[0].Num.Int64())), nil
+		}
+		return nil, ev.err("pow2 needs a literal")
+	case "k_enc", "k_encs", "k_pstr":
+		o, err := ev.order(e.Args[0])
+		if err != nil {
+			return nil, err
+		}
+		w, err := ev.intTerm(e.Args[1])
+		if err != nil {
+			return nil, err
+		}
+		return App(e.Name, SInt, o, w), nil
+	case "tag":
+		if e.Args[0].Kind == "ident" && ev.x.pkgForTags != nil {
+			return App("tag_"+ev.x.pkgForTags.Pkg.Name()+"."+e.Args[0].Name, SInt), nil
+		}
+		return nil, ev.err("tag() needs a type name")
+	case "tbl", "tbldom":
+		if e.Args[0].Kind != "ident" || ev.x.pkgForTags == nil {
+			return nil, ev.err("tbl() needs a table name")
+		}
+		ti := ev.x.V.tables[ev.x.pkgForTags.Pkg.Path()+"."+e.Args[0].Name]
+		if ti == nil {
+			return nil, ev.err("unknown table %s", e.Args[0].Name)
+		}
+		k, err := ev.term(e.Args[1])
+		if err != nil {
+			return nil, err
+		}
+		dom, tag, ok := ev.x.V.tableTerms(ti, k)
+		if !ok {
+			return nil, ev.err("table %s not available", e.Args[0].Name)
+		}
+		if e.Name == "tbldom" {
+			return dom, nil
+		}
+		return tag, nil
+	case "extends", "suffixof": // extends(new, old): new = old ++ something;  suffixof(new, old): old = something ++ new
+		a, err := ev.args(e)
+		if err != nil {
+			return nil, err
+		}
+		return App(e.Name, SBool, a[0], a[1]), nil
 	case "byteof": // byte(rune): truncation to 8 bits
 		a, err := ev.args(e)
 		if err != nil {
